@@ -21,8 +21,8 @@ func init() { families["ids"] = runIDs }
 // buildIDAcc builds one accessory from <eid>:<svc>[+h][+p][~k|~!][^k],...
 func buildIDAcc(ai int, spec string) (*accessory.Accessory, string) {
 	p := strings.SplitN(spec, ":", 2)
-	eid, _ := strconv.Atoi(p[0])
-	a := accessory.New(accessory.Info{Name: fmt.Sprintf("acc%d", ai), ID: uint64(eid)}, accessory.TypeOther)
+	eid, _ := strconv.ParseUint(p[0], 10, 64)
+	a := accessory.New(accessory.Info{Name: fmt.Sprintf("acc%d", ai), ID: eid}, accessory.TypeOther)
 	var svcs []*service.Service
 	var late [][2]int
 	if len(p) > 1 && p[1] != "" {
@@ -168,11 +168,22 @@ func runIDs(id string, toks []string) (res string) {
 	if accs == nil {
 		bad("no-accessories-member")
 	}
-	for _, av := range accs {
+	// accessory ids are 64-bit: read them as number literals, not through float64
+	var exact struct {
+		Accessories []struct {
+			Aid json.Number `json:"aid"`
+		} `json:"accessories"`
+	}
+	json.Unmarshal(b, &exact)
+	for ai, av := range accs {
 		am, _ := av.(map[string]interface{})
-		aid, ok := am["aid"].(float64)
+		_, ok := am["aid"].(float64)
 		if !ok {
 			bad("accessory-without-aid")
+		}
+		aid := "?"
+		if ai < len(exact.Accessories) {
+			aid = exact.Accessories[ai].Aid.String()
 		}
 		var ids []string
 		svs, _ := am["services"].([]interface{})
@@ -224,7 +235,7 @@ func runIDs(id string, toks []string) (res string) {
 				ids = append(ids, fmt.Sprint(cm["iid"]))
 			}
 		}
-		js = append(js, fmt.Sprintf("%d:%s", int(aid), strings.Join(ids, ",")))
+		js = append(js, fmt.Sprintf("%s:%s", aid, strings.Join(ids, ",")))
 	}
 	return strings.Join(out, " ") + " json=" + strings.Join(js, ";") + " wf=" + wf
 }
